@@ -244,6 +244,9 @@ class XFe(XArray):
             lead = [x for x in k if x is not Ellipsis][:2]
             if (len(lead) == 2 and all(isinstance(x, slice) for x in lead)) or (k and k[0] is Ellipsis) or len(lead) < 2 and all(isinstance(x, slice) for x in lead):
                 return XFe(r.shape, r.data)
+            # a selection of elements (index / mask array on the element axis alone) keeps a field of those elements
+            if lead and isinstance(lead[0], (XArray, list)) and (len(lead) == 1 or isinstance(lead[1], slice)) and (not isinstance(lead[0], XArray) or lead[0].ndim == 1) and r.ndim == self.ndim:
+                return XFe(r.shape, r.data)
         return r
 
     def copy(self):
